@@ -93,8 +93,8 @@ def snapshots(commands, global_decls=False):
 # ------------------------------------------------------------------------------------------- generator
 DEFAULTS = dict(ncmds=(8, 26), p_push=0.12, p_pop=0.10, p_check=0.22, named=0.0, nested_named=0.0, defines=0.0,
                 queries=(), q_prob=0.7, unsat_bias=0.3, all_named=False, max_live=14, max_depth=3, big=0.15, max_push=4,
-                reassert=0.08, value_terms=True, final_check=True, clausal=0.35, bool_args=True, allow_let=True, reenter=0.25, horn=0.3, hard3=0.25,
-                uf_heavy=0.4, dl_dense=0.5, la_dense=0.3)
+                reassert=0.12, value_terms=True, final_check=True, clausal=0.35, bool_args=True, allow_let=True, reenter=0.25, horn=0.3, hard3=0.25,
+                uf_heavy=0.4, dl_dense=0.5, la_dense=0.3, ax_dense=0.5)
 
 
 class HistGen:
@@ -112,6 +112,9 @@ class HistGen:
         self.dl_dense = gen.PROFILES[prof]['dl'] and self.o['clausal'] > 0 and rng.random() < self.o['dl_dense']
         # "la-dense" mode (linear arithmetic): 3-4 numeric variables, pool of 10-20 bounds on variables and on short linear
         # combinations with small coefficients
+        # "ax-dense" mode (arrays): two or three arrays, few indices and elements, atoms from the vocabulary the array solver
+        # reasons about (array = store, index (dis)equality, select (dis)equality)
+        self.ax_dense = gen.PROFILES[prof]['arrays'] and self.o['clausal'] > 0 and rng.random() < self.o['ax_dense']
         pp0 = gen.PROFILES[prof]
         self.la_dense = bool(pp0['nums']) and not pp0['dl'] and self.o['clausal'] > 0 and rng.random() < self.o['la_dense']
         self.sig = gen.make_signature(rng, prof, self.o['bool_args'], nconsts=(5, 8) if self.horn else ((4, 6) if self.dl_dense else ((3, 4) if self.la_dense else (2, 4))))
@@ -130,7 +133,7 @@ class HistGen:
         self.pending = []
         self.def_id = 0
         self.pool = None
-        if self.horn or self.dl_dense or self.la_dense or rng.random() < self.o['clausal']:
+        if self.horn or self.dl_dense or self.la_dense or self.ax_dense or rng.random() < self.o['clausal']:
             # "hard" mode: random 2-3 literal clauses over a fixed pool of atoms, so that the answer needs search
             # "hard3": 3-literal clauses only, at a clause / atom ratio around the random 3-SAT threshold, so that the answer
             # needs tens of conflicts instead of being decided by propagation
@@ -150,6 +153,8 @@ class HistGen:
                         a = self.tg.dl_atom(rng.choice(gen.PROFILES[prof]['nums']), 0)
                     if self.la_dense and rng.random() < 0.85:
                         a = self.tg.la_atom(rng.choice(gen.PROFILES[prof]['nums']))
+                    if self.ax_dense and rng.random() < 0.85:
+                        a = self.tg.ax_atom()
                     txt = pr(a, False)
                     # no syntactically trivial atoms ((= x x), (distinct x x), (< x x)) and no duplicates in the pool
                     trivial = a.op == 'app' and len(a.args) >= 2 and len({pr(x, False) for x in a.args}) < len(a.args)
@@ -230,7 +235,47 @@ class HistGen:
             kinds += ['cong', 'cong']
         if self.sig.sorts:
             kinds += ['trans']
+        kinds += ['sat4']
+        if p['nums'] and not p['dl'] and any(f[2] != 'Bool' and len(f[1]) == 1 and f[1][0] in p['nums'] for f in self.sig.funs):
+            kinds += ['iface', 'iface']
         k = r.choice(kinds)
+        if k == 'sat4':
+            # the four binary clauses over two atoms: unsatisfiable, but only a decision followed by a conflict shows it
+            # (no unit propagation at level 0), so the refutation comes from conflict analysis, not from preprocessing
+            if self.pool and len(self.pool) >= 2:
+                a, b = r.sample(self.pool, 2)
+            else:
+                a, b = tg.atom(1), tg.atom(1)
+            if pr(a, False) == pr(b, False):
+                return [tg.boolean(2)]
+            na, nb = gen.negate(a), gen.negate(b)
+            cl = [T('app', 'Bool', head='or', args=[x, y]) for (x, y) in ((a, b), (na, b), (a, nb), (na, nb))]
+            r.shuffle(cl)
+            return cl
+        if k == 'iface':
+            # theory combination: x = y holds only arithmetically (x <= y and y <= x, possibly shifted by a third term), the
+            # contradiction needs the interface equality between the two arguments of an uninterpreted function
+            f = r.choice([f for f in self.sig.funs if f[2] != 'Bool' and len(f[1]) == 1 and f[1][0] in p['nums']])
+            s0 = f[1][0]
+            vs = self.sig.consts[s0]
+            if len(vs) < 2:
+                return [tg.boolean(2)]
+            xn, yn = r.sample(vs, 2)
+            x, y = T('var', s0, val=xn), T('var', s0, val=yn)
+            if len(vs) >= 3 and r.random() < 0.5:
+                c = T('var', s0, val=r.choice([v for v in vs if v not in (xn, yn)]))
+                zero = T('num', s0, val=Fraction(0))
+                le1 = T('app', 'Bool', head='<=', args=[T('app', s0, head='+', args=[x, c]), zero])
+                le2 = T('app', 'Bool', head='<=', args=[zero, T('app', s0, head='+', args=[y, c])])
+                le3 = T('app', 'Bool', head='<=', args=[y, x])
+                pre = [le1, le2, le3]
+            else:
+                pre = [T('app', 'Bool', head='<=', args=[x, y]), T('app', 'Bool', head='>=', args=[x, y])]
+            fx = T('app', f[2], head=f[0], args=[x])
+            fy = T('app', f[2], head=f[0], args=[y])
+            out = pre + [T('app', 'Bool', head='distinct', args=[fx, fy])]
+            r.shuffle(out)
+            return out
         if k == 'neg-prev':
             live = [t for l in self.levels for t in l]
             if not live:
@@ -363,6 +408,20 @@ class HistGen:
             if again:
                 self.reentry = ['push'] + again + ['check']
 
+    def bool_subterms(self, t, out=None, depth=0):
+        """Boolean subterms of t outside let bodies (binder names are not in scope elsewhere)."""
+        if out is None:
+            out = []
+        if t.op == 'let' or depth > 6:
+            return out
+        if t.sort == 'Bool' and t.op in ('app', 'var'):
+            out.append(t)
+        if t.op == 'named':
+            return self.bool_subterms(t.args[0], out, depth + 1)
+        for a in t.args:
+            self.bool_subterms(a, out, depth + 1)
+        return out
+
     def uses_dead_macro(self, t):
         live = {m[0] for m in self.tg.macros}
         syms = set()
@@ -413,8 +472,25 @@ class HistGen:
                     self.emit_assert(g[0])
                     self.pending = g[1:]
                 elif u < o['unsat_bias'] + o['reassert'] and self.popped:
+                    # something that was on a popped level comes back: the formula itself, its negation, a Boolean subterm of it, or
+                    # one of these combined with fresh material (per-frame caches of the CNF converter, of the div/mod, ITE and
+                    # substitution passes and of the partition bookkeeping meet a term for the second time)
                     t = r.choice(self.popped)
                     if not self.uses_dead_macro(t):
+                        v = r.random()
+                        if v < 0.45:
+                            pass
+                        elif v < 0.6:
+                            t = gen.negate(t)
+                        else:
+                            subs = [x for x in self.bool_subterms(t) if x is not t]
+                            if subs and r.random() < 0.6:
+                                t = r.choice(subs)
+                            if r.random() < 0.5:
+                                t = gen.negate(t)
+                            if r.random() < 0.7:
+                                other = self.clause_from_pool() if (self.pool and r.random() < 0.6) else self.tg.boolean(r.randint(0, 2))
+                                t = T('app', 'Bool', head=r.choice(['or', 'and', 'or']), args=[t, other] if r.random() < 0.5 else [other, t])
                         self.emit_assert(t)
                 elif self.pool and r.random() < 0.85:
                     self.emit_assert(self.clause_from_pool())
